@@ -2,7 +2,7 @@
 
 PROPS = {}
 NOT_APPLICABLE = {}
-HOOK_COMMITS = ["8fb4223"]
+HOOK_COMMITS = ["8fb4223", "3373e87"]
 
 DENSE_INV = ["TypeOK", "Refines", "EqRefines", "RowCount", "KeepOld", "NewDefault", "CloneEq", "Untouched", "IterOrder", "EmitReplay"]
 PROPS["C19"] = dict(
@@ -440,3 +440,30 @@ PROPS["C18"] = dict(mc=_py_mc(), record=True, trace="Trace_Py", shards=12, packa
                "memoryview.",
     rule="impl->spec: one event per (object, all probed indices) or per view; distinct_nontrivial = distinct events.",
     assumptions=["CPython's memoryview.tolist() follows shape / strides / format faithfully"])
+
+
+PROPS["C06"] = dict(
+    mc=[
+        dict(name="MC_Mem", module="MC_Mem", invariants=["EncodeIn", "StripeIn", "StripeFast", "ScoreIn"],
+             constants=dict(Guarded=True), quick=dict(MaxL=2200), thorough=dict(MaxL=9000)),
+        dict(name="MC_Mem_neg_unguarded_tiles", module="MC_Mem", invariants=["StripeIn"], expect_violation="StripeIn",
+             constants=dict(Guarded=False, MaxL=1100)),
+    ],
+    record=True, trace="Trace_C06", shards=12,
+    level_text="A-layer: a call owns regions (the buffers of its arguments and results, dense-matrix padding included) and "
+               "every vector access must lie inside one of them and honour the alignment its instruction requires. I-layer: "
+               "the access arithmetic of the encoders, of the 32x32 striping tiles and of the scoring kernels as functions of "
+               "their parameters, model-checked in bounds for every length up to MaxL (the originally coded tile loop bound "
+               "as negative control). Every safe-API call of the recorded campaigns (encode, stripe fresh / reused, f32 "
+               "scoring permute / gather / SSE2 on full and sub-ranges, u8 scoring, arg-max / max; DNA and protein) runs with "
+               "hook H2 armed: 110 instrumented load / store / gather sites log the exact pointer the intrinsic receives, the "
+               "harness attributes each access to the nearest region, and TLC checks every site summary.",
+    level_note="Decided only for the instrumented vector accesses of avx2.rs / sse2.rs (hook placement trusted: the hook takes "
+               "the same pointer expression as the intrinsic, inserted mechanically). Not covered: reads of uninitialised "
+               "memory (encode_raw, DenseMatrix::uninitialized), compiler-introduced accesses, safe-Rust indexing (its "
+               "panics surface under the other properties), NEON, scan / sample (they only call the kernels above). "
+               "Switching to a sanitizer would leave the technique family. Trusted: TLC, Json module.",
+    rule="impl->spec: one event per call {kernel, parameters, regions, per-site (count, min offset, max end, misaligned)}; "
+         "distinct_nontrivial = distinct (kernel, parameters).",
+    assumptions=["a slice argument owns exactly len bytes (reads into spare Vec capacity count as out of bounds)",
+                 "regions are taken from the objects after the call (buffers are not reallocated after the kernel ran)"])
